@@ -182,8 +182,27 @@ def run_case(case, out, jr, scratch, first_combo=0):
         out.flush()
 
 
+SRC_FILES = ('solver/output.py', 'solver/utils.py', 'base/utils.py',
+             'base/particle_array.pyx')
+
+
+def source_hashes():
+    """sha1 of the pysph sources this process imported (the build cache can
+    be re-synchronised from another tree by a concurrent run; the check
+    compares these with the tree it was asked to verify)."""
+    import hashlib
+    import pysph
+    root = os.path.dirname(pysph.__file__)
+    out = {}
+    for f in SRC_FILES:
+        with open(os.path.join(root, f), 'rb') as fp:
+            out[f] = hashlib.sha1(fp.read()).hexdigest()
+    return out
+
+
 def main():
     cases_f, out_f = sys.argv[1], sys.argv[2]
+    h0 = source_hashes()
     start = int(sys.argv[3]) if len(sys.argv) > 3 else 0
     combo = int(sys.argv[4]) if len(sys.argv) > 4 else 0
     scratch = os.path.dirname(os.path.abspath(out_f))
@@ -193,6 +212,8 @@ def main():
             run_case(case, out, jr, scratch, combo if k == 0 else 0)
         jr.seek(0)
         jr.truncate()
+    with open(out_f + '.src', 'a') as fp:
+        fp.write(json.dumps(dict(start=h0, end=source_hashes())) + '\n')
 
 
 if __name__ == '__main__':
